@@ -45,6 +45,7 @@ def main(argv=None):
     # quick): when it is used up every running enumeration stops after its current execution
     budget = float(os.environ.get("XMC_BUDGET", "1500" if tier == "thorough" else "0") or 0)
     for t in tasks:
+        t["_prop"] = prop
         if cap > 0:
             t.setdefault("time_cap", cap)
         if budget > 0:
